@@ -38,9 +38,17 @@ class SessionModel(object):
         self.prog = prog
         self.ip = Interp(prog, max_paths=max_paths)
         self.ip.call_hook = self._hook
+        self.ip.while_unroll = 1
+        self.ip.merge_loops = True
+        self.ip.merge_call_prefixes = ('yabgp.message.',)
         self.ip.opaque_funcs = {'yabgp.message.update.Update.parse',
                                 'yabgp.message.update.Update.construct',
-                                'yabgp.core.factory.BGPPeering.get_tcp_md5sig'}
+                                'yabgp.core.factory.BGPPeering.get_tcp_md5sig',
+                                'yabgp.message.open.Open.construct',
+                                'yabgp.core.protocol.BGP.update_receive_verion',
+                                'yabgp.core.protocol.BGP.update_rib_in_ipv4',
+                                'yabgp.core.protocol.BGP.update_send_version',
+                                'yabgp.core.protocol.BGP.update_rib_out_ipv4'}
         cm = prog.module(CONS_Q)
         if cm is None:
             raise AnalysisError('constants module vanished')
@@ -214,6 +222,8 @@ class SessionModel(object):
             s.writes = []
             s.path = []
             s.flags = set()
+            s.counter += 1
+            s.base = s.counter
             res.append((poid, s))
         return res
 
